@@ -142,6 +142,60 @@ def shrinking_script(Y, var0, shrink, steps):
     return [(Y, np.full(Y.shape, var0 * shrink ** k)) for k in range(1, steps + 1)]
 
 
+_scaled_counter = [0]
+
+
+def register_scaled_dataset(X_raw, Y_raw):
+    """A dataset class that goes through the REAL `Dataset.__init__` (min-max scaling of the inputs,
+    standardisation of the outputs) exactly like the bundled ones: the subclass sets `in_data` /
+    `out_data` and calls `super().__init__()`.  Registered by name in `vopy.datasets.dataset`;
+    removed again with `stubs.unregister_dataset`."""
+    import vopy.datasets.dataset as D
+
+    _scaled_counter[0] += 1
+    name = f"VerifScaled{_scaled_counter[0]}"
+    X_raw, Y_raw = np.array(X_raw), np.array(Y_raw)
+
+    def __init__(self):
+        self.in_data = X_raw.copy()
+        self.out_data = Y_raw.copy()
+        D.Dataset.__init__(self)
+
+    cls = type(name, (D.Dataset,), {"__init__": __init__, "_in_dim": X_raw.shape[1], "_out_dim": Y_raw.shape[1],
+                                    "_cardinality": len(X_raw), "_verif_synthetic": True,
+                                    "__doc__": "synthetic verification dataset (real scaling path)"})
+    D.__dict__[name] = cls
+    return name, cls
+
+
+def construct_scaled(case, name, kw, order, eps, delta, nv):
+    """algorithm on a dataset built by the real `Dataset` constructor; `alg._c06_X` = the scaled inputs"""
+    dt = int if case.get("int_dtype") else float
+    dsname, cls = register_scaled_dataset(np.array(case["X_raw"], dtype=dt), np.array(case["Y_raw"], dtype=dt))
+    try:
+        inst = cls()
+        X, Y = np.array(inst.in_data, dtype=float), np.array(inst.out_data, dtype=float)
+        mk = case.get("model", "scripted")
+        args = dict(dataset_name=dsname, epsilon=eps, delta=delta, noise_var=nv, **kw)
+        if name not in ("PaVeBa", "Auer", "NaiveElimination"):
+            if mk == "fixed":
+                args["model"] = "fixed"
+            else:
+                mcls = stubs.ScriptedModelList if name in DECOUPLED else stubs.ScriptedModel
+                v0, sh = case.get("var0", 0.25), case.get("shrink", 0.5)
+                args["model"] = mcls(X, Y, np.full(Y.shape, v0), script=shrinking_script(Y, v0, sh, 4 * CAP),
+                                     seed=case.get("seed", 0))
+        if order is not None:
+            args["order"] = order
+        if name == "DecoupledGP":
+            args["out_data"] = Y  # only read for the objective count of the default costs
+        a = stubs.build(name, **args)
+        a._c06_X = X
+        return a
+    finally:
+        stubs.unregister_dataset(dsname)
+
+
 def construct(case):
     """real algorithm object through the real constructor (may raise: caller reports the crash)"""
     name = case["alg"]
@@ -199,6 +253,8 @@ def construct(case):
             a.S, a.P = set(force["S"]), set(force["P"])
             a.enable_epsilon_covering = bool(force.get("latch", False))
         return a
+    if case.get("dataset") == "scaled":
+        return construct_scaled(case, name, kw, order, eps, delta, nv)
     n = case["K"]
     X, Y = design_inputs(n)[:n], np.array(case["Y"], dtype=float)
     mk = case.get("model", "scripted")
@@ -528,6 +584,73 @@ def gen_real_case(rng, name=None, tier="quick"):
     return case
 
 
+SCALED_SHAPES = ["plain", "const-feature", "const-feature", "single", "single", "identical-2", "identical-k",
+                 "int", "int-const-feature", "const-objective", "all-const-objectives", "two-close"]
+SCALED_ALGS = ["PaVeBa", "PaVeBa", "PaVeBa", "Auer", "Auer", "Auer", "NaiveElimination", "NaiveElimination",
+               "VOGP", "EpsilonPAL", "PaVeBaGP-DE", "PaVeBaPartialGP-ell", "DecoupledGP"]
+
+
+def scaled_data(rng, shape, m):
+    """raw (unscaled) inputs / outputs of an awkward-but-ordinary tabular dataset"""
+    d = rng.choice([1, 2, 3])
+    K = rng.randint(2, 6)
+    if shape == "single":
+        K = 1
+    elif shape == "identical-2":
+        K = 2
+    integer = shape.startswith("int")
+    def num():
+        return rng.randint(-9, 9) if integer else core.dyadic(rng, -40, 40, 3)
+    X = [[num() for _ in range(d)] for _ in range(K)]
+    for i in range(K):  # distinct rows unless the shape asks otherwise
+        X[i][0] = (3 * i + 1) if integer else (i * 1.25 + 0.5)
+    Y = [[num() for _ in range(m)] for _ in range(K)]
+    if shape in ("const-feature", "int-const-feature"):
+        if d == 1:
+            X = [r + [0] for r in X] if integer else [r + [0.0] for r in X]
+            d = 2
+        j = rng.randrange(1, d)
+        for r in X:
+            r[j] = X[0][j]
+    elif shape in ("identical-2", "identical-k"):
+        X = [list(X[0]) for _ in range(K)]
+    elif shape == "const-objective":
+        j = rng.randrange(m)
+        for r in Y:
+            r[j] = Y[0][j]
+    elif shape == "all-const-objectives":
+        Y = [list(Y[0]) for _ in range(K)]
+    elif shape == "two-close" and K >= 2:
+        X[1] = [x + (0 if integer else 2.0 ** -20) for x in X[0]]
+    return X, Y, integer
+
+
+def gen_scaled_case(rng, name=None, shape=None):
+    """datasets that go through the REAL `Dataset.__init__` scaling path"""
+    shape = shape or rng.choice(SCALED_SHAPES)
+    name = name or rng.choice(SCALED_ALGS)
+    if shape in ("identical-2", "identical-k") and name not in EVAL_ALL:
+        name = rng.choice(EVAL_ALL)  # picks of duplicate designs cannot be told apart from the evaluated rows
+    case = base_case(rng, "real", name)
+    m = case["m"]
+    X, Y, integer = scaled_data(rng, shape, m)
+    case.update({"dataset": "scaled", "shape": shape, "X_raw": X, "Y_raw": Y, "int_dtype": integer, "K": len(X),
+                 "Y": [], "eps": rng.choice([0.125, 0.25, 0.5]), "var0": rng.choice([0.0625, 0.25]),
+                 "shrink": rng.choice([0.25, 0.5])})
+    if name in ("PaVeBa", "Auer"):
+        case["conf_contraction"] = rng.choice([4, 8, 16, 32])
+    if name == "Auer":
+        case["empirical_beta"] = rng.random() < 0.5
+    if name == "NaiveElimination":
+        case["L"] = rng.choice([0, 1, 2, 3])
+    if name in BATCHED:
+        case["batch"] = rng.randint(1, max(1, len(X)))
+    if name in TABLE_ALGS and rng.random() < 0.3:
+        case["kind"] = "table"
+        case["profile"] = dict(rng.choice(PROFILES))
+    return case
+
+
 def structured_cases():
     """hand-picked shapes that must be present in every run of the check"""
     out = []
@@ -565,6 +688,26 @@ def structured_cases():
     for L in (0, 1):
         out.append({"kind": "real", "alg": "NaiveElimination", "cone": "orthant2", "m": 2, "K": 1, "Y": Y2[:1],
                     "eps": 1.0 / 1024, "delta": 0.05, "noise_var": 0.015625, "seed": 15, "extra": 3, "L": L})
+    # datasets through the real `Dataset.__init__` (min-max / standard scaling): a constant input feature, a
+    # single design, duplicate designs, integer data, a constant objective
+    Xc = [[0.0, 2.0, 1.0], [1.0, 2.0, 0.5], [2.0, 2.0, 4.0], [3.0, 2.0, 3.0], [4.0, 2.0, 2.5], [5.0, 2.0, 0.0]]
+    Yc = [[0.0, 5.0], [1.0, 4.0], [2.0, 4.5], [0.5, 1.0], [4.0, 0.0], [3.0, 2.0]]
+    shapes = [("const-feature", Xc, Yc, False), ("single", [[0.3, 0.7]], [[1.0, -1.0]], False),
+              ("identical-2", [[1.0, 2.0], [1.0, 2.0]], [[0.0, 1.0], [1.0, 0.0]], False),
+              ("int", [[1, 5], [2, 3], [4, 4], [7, 0]], [[0, 3], [2, 2], [3, 0], [1, 1]], True),
+              ("const-objective", [[0.0], [1.0], [2.5]], [[1.0, 7.0], [2.0, 7.0], [0.5, 7.0]], False)]
+    for shape, Xr, Yr, integer in shapes:
+        for name in ("PaVeBa", "Auer", "NaiveElimination"):
+            c = {"kind": "real", "alg": name, "cone": ["comp", 2] if name == "Auer" else "orthant2", "m": 2,
+                 "K": len(Xr), "Y": [], "dataset": "scaled", "shape": shape, "X_raw": Xr, "Y_raw": Yr,
+                 "int_dtype": integer, "eps": 0.25, "delta": 0.05, "noise_var": 0.015625, "seed": 21, "extra": 2,
+                 "conf_contraction": 16}
+            if name == "NaiveElimination":
+                c["L"] = 2
+            out.append(c)
+    out.append({"kind": "real", "alg": "VOGP", "cone": "orthant2", "m": 2, "K": len(Xc), "Y": [], "dataset": "scaled",
+                "shape": "const-feature", "X_raw": Xc, "Y_raw": Yc, "int_dtype": False, "eps": 0.25, "delta": 0.05,
+                "noise_var": 0.015625, "seed": 22, "extra": 2, "batch": 2, "var0": 0.25, "shrink": 0.5})
     # VOGP_AD: a member of P below the maximum depth gets refined (unreachable from the constructor:
     # P only receives nodes of maximal depth) — children must replace it in P
     for seed in (1, 2):
@@ -614,6 +757,8 @@ def gen(ctx):
     names_r = sorted(set(REAL_ALGS)) if first else []
     for k in range(n_real):
         yield gen_real_case(rng, names_r[k] if k < len(names_r) else None, ctx.tier)
+    for k in range(ctx.n(60, 1500)):
+        yield gen_scaled_case(rng)
 
 
 # --------------------------------------------------------------------------------------------
@@ -636,6 +781,8 @@ def run_case(ctx, case):
     case = dict(case)
     ctx.count(f"stream_{kind}")
     ctx.count(f"alg_{name}")
+    if case.get("dataset") == "scaled":
+        ctx.count("dataset_scaled_" + case.get("shape", "?"))
     try:
         if name not in ("EpsilonPAL", "Auer"):
             case["N"] = facets(case["cone"])
@@ -702,14 +849,25 @@ def _run(ctx, case, name, kind):
             return kids
 
         ds.should_refine_design, ds.refine_design = spy_should, spy_refine
-    X = design_inputs(case["K"])[: case["K"]] if name != "VOGP_AD" else None
-    xkey = {X[i].tobytes(): i for i in range(len(X))} if X is not None else None
+    if name == "VOGP_AD":
+        X = None
+    else:
+        X = getattr(alg, "_c06_X", None)
+        if X is None:
+            X = design_inputs(case["K"])[: case["K"]]
+    xkey = {}
+    if X is not None:
+        for i in range(len(X)):
+            xkey.setdefault(np.ascontiguousarray(X[i], dtype=float).tobytes(), []).append(i)
 
-    def decode(calls):
+    def decode(calls, prefer=()):
+        """design (and objective) of every evaluated row; identical input rows (duplicate designs) are told
+        apart by taking, among the designs with that row, first an unused one of the active set"""
         reqs = []
         for c in calls:
             xs = np.atleast_2d(c["x"])
             objs = None
+            used = set()
             if name in DECOUPLED:
                 objs = [int(o) for o in np.atleast_1d(c["args"][0] if c["args"] else c["kwargs"].get("evaluation_index"))]
             for k, x in enumerate(xs):
@@ -717,7 +875,13 @@ def _run(ctx, case, name, kind):
                     hit = np.where(np.all(alg.design_space.points == x, axis=1))[0]
                     d = int(hit[0]) if len(hit) else -1
                 else:
-                    d = xkey.get(np.ascontiguousarray(x[: X.shape[1]], dtype=float).tobytes(), -1)
+                    cand = xkey.get(np.ascontiguousarray(x[: X.shape[1]], dtype=float).tobytes(), [])
+                    if len(cand) > 1 and name not in DECOUPLED:
+                        free = [i for i in cand if i not in used]
+                        pref = [i for i in free if i in prefer]
+                        cand = pref or free or cand
+                    d = cand[0] if cand else -1
+                    used.add(d)
                 reqs.append((d, objs[k] if objs is not None else None))
         return reqs
 
@@ -755,7 +919,7 @@ def _run(ctx, case, name, kind):
         except Exception as e:
             exc = e
         # ---- environment of this call, as far as it was observed
-        reqs = decode(rec.calls[ncalls:])
+        reqs = decode(rec.calls[ncalls:], prefer=set(prev["S"]) | set(prev["U"]) | set(prev["P"]))
         if orc is not None and not table_stream:
             tabs = orc.tables(n_before)
         centres = rows = None
